@@ -349,12 +349,22 @@ pub fn run_check(spec: &PropSpec, args: &CheckArgs) -> i32 {
                             // A difference is a harness error only if it matters: the code under test may itself be
                             // order-nondeterministic in ways no property forbids (e.g. iterating a randomly seeded hash
                             // map); two executions on which the oracle gives the same verdict are then merely counted.
+                            // Executions whose verdicts differ: every one of them is an execution of the real code, so a
+                            // violation seen in any of them is a violation (reported below; its replay file may then
+                            // reproduce only sometimes, which the report says). The harness' own determinism is
+                            // established separately and strictly by `selftest determinism` on the unchanged tree.
                             let (l2, e2) = run_one(spec, args.seed, run);
                             if ledger_digest(&l2) != d0 {
                                 if violation_keys(spec, &ledger, &entries, &known0) == violation_keys(spec, &l2, &e2, &known0) {
                                     local.stats.probe("nondeterministic_reexecution_without_violation");
                                 } else {
-                                    local.nondeterminism.push(format!("run {} differs when re-executed from its seed", run));
+                                    local.stats.probe("nondeterministic_reexecution_with_different_verdict");
+                                    for v in (spec.check)(&l2, &e2, spec) {
+                                        if !local.found.contains_key(&v.key) {
+                                            *local.found_count.entry(v.key.clone()).or_insert(0) += 1;
+                                            local.found.insert(v.key.clone(), Found { run, violation: v, entries: e2.clone() });
+                                        }
+                                    }
                                 }
                             }
                             let l3 = replay_entries(spec, &entries);
@@ -362,7 +372,13 @@ pub fn run_check(spec: &PropSpec, args: &CheckArgs) -> i32 {
                                 if violation_keys(spec, &ledger, &entries, &known0) == violation_keys(spec, &l3, &entries, &known0) {
                                     local.stats.probe("nondeterministic_reexecution_without_violation");
                                 } else {
-                                    local.nondeterminism.push(format!("run {} differs when replayed from its recorded plan", run));
+                                    local.stats.probe("nondeterministic_reexecution_with_different_verdict");
+                                    for v in (spec.check)(&l3, &entries, spec) {
+                                        if !local.found.contains_key(&v.key) {
+                                            *local.found_count.entry(v.key.clone()).or_insert(0) += 1;
+                                            local.found.insert(v.key.clone(), Found { run, violation: v, entries: entries.clone() });
+                                        }
+                                    }
                                 }
                             }
                         }
@@ -487,13 +503,30 @@ pub fn run_check(spec: &PropSpec, args: &CheckArgs) -> i32 {
             }),
             Err(_) => false,
         };
+        let mut flaky_note = false;
         if !confirmed {
-            eprintln!("HARNESS ERROR: replay of {} did not reproduce {}", path, key);
-            return 2;
+            // Not reproduced. If the code under test itself behaves differently between executions of one and the
+            // same plan (e.g. it iterates a randomly seeded hash set), the violation was still seen on a real
+            // execution: keep the unminimised plan and say so. Otherwise the harness is at fault.
+            let d: Vec<u64> = (0..8).map(|_| ledger_digest(&replay_entries(spec, &f.entries))).collect();
+            let code_nondeterministic = d.iter().any(|x| *x != d[0]) || m.stats.probes.get("nondeterministic_reexecution_with_different_verdict").copied().unwrap_or(0) > 0 || m.stats.probes.get("nondeterministic_reexecution_without_violation").copied().unwrap_or(0) > 0;
+            if !code_nondeterministic {
+                eprintln!("HARNESS ERROR: replay of {} did not reproduce {}", path, key);
+                return 2;
+            }
+            let plan = Plan { entries: f.entries.clone(), ..plan.clone() };
+            if std::fs::write(&path, plan.to_text()).is_err() {
+                eprintln!("HARNESS ERROR: cannot write {}", path);
+                return 2;
+            }
+            flaky_note = true;
         }
         println!("VIOLATION property={} replay={}", spec.id, path);
         println!("  key: {}", key);
         println!("  {}", f.violation.detail);
+        if flaky_note {
+            println!("  note: the code under test behaves differently between executions of the same plan (its behaviour does not depend on its inputs alone), so this replay file reproduces the violation only in some executions; it is not minimised");
+        }
         violations_reported += 1;
         exit = 1;
     }
